@@ -90,8 +90,10 @@ def mypy_expression_to_sds_type(expr: mp_nodes.Expression) -> sds_types.Abstract
     if isinstance(expr, mp_nodes.NameExpr):
         if expr.name in {"False", "True"}:
             return sds_types.NamedType(name="bool", qname="builtins.bool")
-        else:
-            return sds_types.NamedType(name=expr.name, qname=expr.fullname)
+        elif expr.name == "None":
+            return sds_types.NamedType(name="None", qname="builtins.None")
+        # Any other name is a variable; its name says nothing about its type
+        return sds_types.UnknownType()
     elif isinstance(expr, mp_nodes.IntExpr):
         return sds_types.NamedType(name="int", qname="builtins.int")
     elif isinstance(expr, mp_nodes.FloatExpr):
@@ -103,7 +105,8 @@ def mypy_expression_to_sds_type(expr: mp_nodes.Expression) -> sds_types.Abstract
     elif isinstance(expr, mp_nodes.UnaryExpr):
         return mypy_expression_to_sds_type(expr.expr)
 
-    raise TypeError("Unexpected expression type.")  # pragma: no cover
+    # Any other kind of expression (calls, operators, comprehensions, ...) carries no type information we can use
+    return sds_types.UnknownType()
 
 
 def mypy_expression_to_python_value(
